@@ -853,6 +853,7 @@ func (m *vMonitor) setIdleBehavior(p pool, gen int, id cloud.InstanceID, ib work
 	defer m.mgmtMu.Unlock()
 	err := p.SetIdleBehavior(id, ib)
 	m.mu.Lock()
+	defer m.mu.Unlock()
 	m.ev(gen, "mgmt-"+string(ib), string(id), "", fmt.Sprintf("err=%v", err))
 	if err == nil {
 		m.intended[id] = ib
@@ -862,5 +863,4 @@ func (m *vMonitor) setIdleBehavior(p pool, gen int, id cloud.InstanceID, ib work
 			delete(m.heldNow, id)
 		}
 	}
-	m.mu.Unlock()
 }
